@@ -77,6 +77,15 @@ SPEC("pane.classes", "_make_init.<locals>.from_dict_unchecked",
      frame=["C09"])
 
 
+# ownership: the stored record is the instance's OWN set (copies / replacements built through here must not share the caller's set: a
+# later assignment on the copy would add to the original's record). Object identity of `.copy()` results is not modelled by the symbolic
+# engine (sets are extensional values there), so this clause is bounded: run time only, never counted as proved
+SPEC("pane.classes", "_make_init.<locals>.from_dict_unchecked.own.bounded", bounded=True,
+     ensures=[(lambda cls, d, set_fields, result: set_fields is None or (getattr(result, "__pane_set__") is not set_fields
+                                                                        and getattr(result, "__pane_set__") == set_fields), ["C14", "C16"], "set-record-own")],
+     note="bounded: identity (non-aliasing) of the stored set-field record, every pool class x four set-field records")
+
+
 # ---------------------------------------------------------------------------------------------
 # generated __init__ (C14): construction is conversion; defaults; the set-field record; the hook runs last
 INIT_SHAPES = {"free:sig": "", "kwargs": "map", "from_dict": "map", "args": "seq", ".arguments": "map", "bound_args": "map",
